@@ -264,9 +264,13 @@ def run_case(ctx, case):
 def _history(ctx, case, f, model, paras):
     from debian._deb822_repro import parse_deb822_file
     from debian._deb822_repro.parsing import Deb822ParagraphElement, Deb822DuplicateFieldsParagraphElement
+    adj = ctx.extra.setdefault('op_adjacencies_observed', set())
+    prev_kind = 'start'
     for step, op in enumerate(case['ops']):
         kind = op[0]
         before = f.dump()
+        adj.add('%s->%s' % (prev_kind, op[0]))
+        prev_kind = op[0]
         ctx.count('op:' + kind)
         if kind in ('insert', 'append'):
             if not _insert(ctx, step, op, f, model, paras, before, Deb822ParagraphElement):
